@@ -10,6 +10,7 @@ import (
 	"regexp"
 	"strings"
 	"sync"
+	"sync/atomic"
 	"testing"
 	"time"
 
@@ -29,6 +30,9 @@ type segConn struct {
 	segs   [][]byte
 	out    bytes.Buffer
 	closed bool
+	// writeDelay: the carrier takes this long to consume a written message (a peer that reads late, a
+	// synchronous pipe); the bytes are taken from the caller's slice at the end of the call
+	writeDelay time.Duration
 }
 
 func newSegConn(data []byte, cuts []int) *segConn {
@@ -68,6 +72,9 @@ func (c *segConn) Read(p []byte) (int, error) {
 	return n, nil
 }
 func (c *segConn) Write(p []byte) (int, error) {
+	if c.writeDelay > 0 {
+		time.Sleep(c.writeDelay)
+	}
 	c.mu.Lock()
 	defer c.mu.Unlock()
 	c.out.Write(p)
@@ -120,7 +127,12 @@ func serverManager(withCert bool) cert.TlsConfig {
 
 // runServer feeds input (cut as given) to the real server handshake.
 func runServer(input []byte, cuts []int, withCert bool) outcome {
+	return runServerDelayed(input, cuts, withCert, 0)
+}
+
+func runServerDelayed(input []byte, cuts []int, withCert bool, writeDelay time.Duration) outcome {
 	c := newSegConn(input, cuts)
+	c.writeDelay = writeDelay
 	res := make(chan outcome, 1)
 	go func() {
 		var o outcome
@@ -149,7 +161,12 @@ func runServer(input []byte, cuts []int, withCert bool) outcome {
 
 // runClient feeds the scripted server responses to the real client handshake.
 func runClient(input []byte, cuts []int) outcome {
+	return runClientDelayed(input, cuts, 0)
+}
+
+func runClientDelayed(input []byte, cuts []int, writeDelay time.Duration) outcome {
 	c := newSegConn(input, cuts)
+	c.writeDelay = writeDelay
 	res := make(chan outcome, 1)
 	go func() {
 		var o outcome
@@ -551,6 +568,74 @@ func TestHandshakeGrammar(t *testing.T) {
 			vlib.Rec.Violation(map[string]interface{}{"property": "C06", "case": sc, "cuts_a": cutsA, "cuts_b": cutsB, "problem": msg})
 			rt.Fatalf("C06 role=%s class=%s mutation=%s input=%q: %s", sc.Role, sc.Class, sc.Mutation, sc.Input, msg)
 		}
+	})
+}
+
+// TestConcurrentHandshakes: the outcome of a handshake is a function of the bytes exchanged on its own connection.
+// 4-16 generated peers (both roles, valid and invalid mixed) are first run one at a time and then all at the same
+// instant, over carriers that take 0-2 ms to consume each written message; every peer's concurrent outcome (admission,
+// status sequence, bytes handed on) must equal its outcome in isolation.
+func TestConcurrentHandshakes(t *testing.T) {
+	// each case costs tens of milliseconds (carrier delays): bounded separately from the cheap grammar cases
+	budget := int32(vlib.Pick(250, 2500))
+	var done int32
+	rapid.Check(t, func(rt *rapid.T) {
+		if atomic.AddInt32(&done, 1) > budget {
+			return
+		}
+		n := rapid.IntRange(4, 16).Draw(rt, "peers")
+		type peer struct {
+			sc    scriptCase
+			cuts  []int
+			delay time.Duration
+			alone outcome
+			conc  outcome
+		}
+		peers := make([]*peer, n)
+		for i := range peers {
+			p := &peer{}
+			if rapid.IntRange(0, 2).Draw(rt, "role") == 0 {
+				p.sc = genClientScript(rt)
+			} else {
+				p.sc = genServerScript(rt)
+			}
+			p.cuts = drawCuts(rt, "cuts", len(p.sc.Input))
+			p.delay = time.Duration(rapid.IntRange(0, 2000).Draw(rt, "consumeUs")) * time.Microsecond
+			peers[i] = p
+		}
+		run := func(p *peer) outcome {
+			if p.sc.Role == "server" {
+				return runServerDelayed([]byte(p.sc.Input), p.cuts, p.sc.WithCert, p.delay)
+			}
+			return runClientDelayed([]byte(p.sc.Input), p.cuts, p.delay)
+		}
+		for _, p := range peers {
+			p.alone = run(p)
+		}
+		for round := 0; round < 3; round++ {
+			var wg sync.WaitGroup
+			start := make(chan struct{})
+			for _, p := range peers {
+				wg.Add(1)
+				go func(p *peer) {
+					defer wg.Done()
+					<-start
+					p.conc = run(p)
+				}(p)
+			}
+			close(start)
+			wg.Wait()
+			for i, p := range peers {
+				if !same(p.alone, p.conc) {
+					msg := fmt.Sprintf("peer %d of %d (role %s, class %s, mutation %s): alone -> %v ; with the others at the same time -> %v", i, n, p.sc.Role, p.sc.Class, p.sc.Mutation, p.alone, p.conc)
+					vlib.Rec.Violation(map[string]interface{}{"property": "C06", "case": p.sc, "cuts_a": p.cuts, "concurrent_peers": n, "problem": "outcome depends on other connections' handshakes: " + msg})
+					rt.Fatalf("C06 concurrent: %s", msg)
+				}
+			}
+		}
+		vlib.Rec.Case(fmt.Sprintf("concurrent %d %s", n, peers[0].sc.Input), true, []string{"concurrent-handshakes", fmt.Sprintf("peers:%d", n)}, func() interface{} {
+			return map[string]interface{}{"concurrent_peers": n, "first_peer_role": peers[0].sc.Role, "first_peer_class": peers[0].sc.Class}
+		})
 	})
 }
 
